@@ -157,12 +157,12 @@ Theorem api_revoke_recursive s id g t k tk :
   (k = id \/ derived_from (S (length (toks s))) (upd_nth id revoke_t (toks s)) tk id = true) ->
   exists tk', tget k (fst (do_api_revoke s id true)) = Some tk' /\ t_revoked tk' = true.
 Proof.
-  intros Hf Hk Hg Hd. unfold do_api_revoke. rewrite Hf. cbn [fst]. unfold revoke_derived, map_toks, tget in *; cbn.
+  intros Hf Hk Hg Hd. unfold do_api_revoke. rewrite Hf. cbn [fst]. unfold revoke_derived, map_toks, tget in *; cbn -[derived_from].
   rewrite nth_error_map. destruct Hd as [->|Hd].
-  - rewrite nth_upd_same, Hk. cbn. destruct (_ && _); cbn; eauto.
+  - rewrite nth_upd_same, Hk. cbn -[derived_from]. destruct (_ && _); cbn; eauto.
   - destruct (Nat.eq_dec id k) as [->|N].
-    + rewrite nth_upd_same, Hk. cbn. destruct (_ && _); cbn; eauto.
-    + rewrite nth_upd_other, Hk by auto. cbn. rewrite Hg, Nat.eqb_refl, len_upd. cbn [andb]. rewrite Hd. eauto.
+    + rewrite nth_upd_same, Hk. cbn -[derived_from]. destruct (_ && _); cbn; eauto.
+    + rewrite nth_upd_other, Hk by auto. cbn -[derived_from]. rewrite Hg, Nat.eqb_refl, len_upd. cbn [andb]. rewrite Hd. eauto.
 Qed.
 
 (* ISOLATION: revoking a grant / client session / token never changes a token of another grant, client or user *)
